@@ -241,6 +241,16 @@ def chain_language(kinds, sib=False, reverse=False):
 # ---------------------------------------------------------------------------------------------------
 # models from JSON recipes that refer to associations by their index in the specification
 
+def assoc_class(lcf, a):
+    """name of the generated class for declared association `a`: the class named after the association (or
+    <name>_...) that has both role names as properties; falls back to the factory's signature lookup"""
+    for cname in sorted(n for n in dir(lcf.ns) if n == a["name"] or n.startswith(a["name"] + "_")):
+        info = getattr(getattr(lcf.ns, cname), "__propinfo__", None)
+        if info and a["leftField"] in info and a["rightField"] in info:
+            return cname
+    return lcf.get_association_by_signature(a["name"], a["leftAsset"], a["rightAsset"])
+
+
 def build_model(lcf, spec, recipe, name="m"):
     """recipe = {"assets": [[type, name], ...], "links": [[assoc index, left asset idx, right asset idx], ...],
                  "attackers": [[name, [[asset idx, [steps]], ...]], ...], "defenses": {asset idx(str): {name: value}}}
@@ -248,7 +258,7 @@ def build_model(lcf, spec, recipe, name="m"):
     links = []
     for (k, li, ri) in recipe.get("links", []):
         a = spec["associations"][k]
-        cls = lcf.get_association_by_signature(a["name"], a["leftAsset"], a["rightAsset"])
+        cls = assoc_class(lcf, a)
         links.append([cls, a["leftField"], [li], a["rightField"], [ri]])
     defs = recipe.get("defenses", {})
     assets = [[t, n, None, defs.get(str(i), {})] for i, (t, n) in enumerate(recipe.get("assets", []))]
